@@ -162,8 +162,11 @@ def run_fit(cfg: Dict[str, Any], seed: int, feats, criterion_fn) -> Dict[str, An
                 p_.grad = torch.full_like(p_, 0.5)
     vers.clear()
     ver()
-    history = hedger.fit(deriv, hedge=hedger.verif_hedge, n_epochs=cfg["k"], n_paths=cfg["n"], n_times=cfg["ntimes"], optimizer=optimizer,
-                         init_state=init_state, verbose=False, validation=cfg["validation"])
+    import contextlib
+    import io
+    with contextlib.redirect_stderr(io.StringIO()):      # (verbose=True draws a progress bar on stderr; the protocol is the same)
+        history = hedger.fit(deriv, hedge=hedger.verif_hedge, n_epochs=cfg["k"], n_paths=cfg["n"], n_times=cfg["ntimes"], optimizer=optimizer,
+                             init_state=init_state, verbose=bool(cfg.get("verbose")), validation=cfg["validation"])
     events: List[Dict[str, Any]] = []
     for ev in slog:
         if ev["op"] == "fwd":
@@ -365,6 +368,9 @@ def check(ctx: Ctx) -> None:
     # the model alone in evaluation mode when fit() is entered (the hedger's own flag still says training)
     stale_cfgs += [{"k": k, "n": 2, "ntimes": 1, "validation": v, "optclass": oc, "lazy": False, "init": "default", "pre_eval": False, "extra": False, "stale": False, "model_eval": True}
                    for k in (1, 2) for v in (True, False) for oc in (True, False)]
+    # the progress display switched on (verbose=True, the default of fit()): the same protocol, with and without validation
+    stale_cfgs += [{"k": k, "n": 2, "ntimes": nt, "validation": v, "optclass": oc, "lazy": False, "init": "default", "pre_eval": False, "extra": False, "stale": False, "verbose": True}
+                   for k in (0, 2, 3) for nt in (1, 2) for v in (True, False) for oc in (True, False)]
     for c_ in cfgs + extra_cfgs + hedge_cfgs:
         c_.setdefault("stale", False)
     traces = []
